@@ -75,6 +75,51 @@ R23E_SCOPE = (
 )
 
 
+def _r23g(chk, repo) -> None:
+    n = 0
+    mods = [repo.mod("src/sqlfluff/core/parser/lexer.py")]  # where token positions are made; templater internals are not judged here
+    for m in mods:
+        for q, f in m.functions():
+            # locals that are None at some point and an index / offset / position at another
+            none_assigned, num_assigned = set(), set()
+            for st in walk_local(f):
+                tg, val = [], None
+                if isinstance(st, ast.Assign):
+                    tg, val = st.targets, st.value
+                elif isinstance(st, ast.AnnAssign) and st.value is not None:
+                    tg, val = [st.target], st.value
+                for t in tg:
+                    if isinstance(t, ast.Name) and any(w in t.id for w in ("idx", "pos", "offset", "start", "stop")):
+                        if isinstance(val, ast.Constant) and val.value is None:
+                            none_assigned.add(t.id)
+                        else:
+                            num_assigned.add(t.id)
+            cand = none_assigned & num_assigned
+            if not cand:
+                continue
+            for x in walk_local(f):
+                uses = []
+                if isinstance(x, (ast.If, ast.While, ast.IfExp)):
+                    uses = [x.test]
+                elif isinstance(x, ast.BoolOp):
+                    uses = list(x.values)
+                elif isinstance(x, ast.UnaryOp) and isinstance(x.op, ast.Not):
+                    uses = [x.operand]
+                elif isinstance(x, ast.Assert):
+                    uses = [x.test]
+                for u in uses:
+                    if isinstance(u, ast.Name) and u.id in cand:
+                        chk.fail(
+                            "R23g", x,
+                            f"{q}: `{u.id}` holds None or a position and is tested by truthiness here ({short(x, 50)}): position 0 counts as 'absent', so a token that starts at the "
+                            "first character of the file gets its start from somewhere else and its violations are reported at the wrong place",
+                            detail=f"{q}: optional position {u.id} tested with `is None`",
+                        )
+            n += len(cand)
+    chk.count("R23g.optional_position_locals", n)
+    chk.floor("R23g.optional_position_locals", 1)
+
+
 def _r23f(chk, repo) -> None:
     """`"end_column": violation.get("end_line_pos", start_line)`: the fallback of a column must be a column."""
     n = 0
@@ -214,6 +259,8 @@ def run(chk) -> None:
     chk.rule("RQ-space", "no position computation in the eight position-handling modules uses a rendered-space offset/slice/text where a source-space one is required or vice versa, nor a line where a column is required (kind inference from the declared slice fields)")
     chk.rule("R23a", "a violation's line/column are components 0/1 of the marker's source_position(), which converts the START of the marker's SOURCE slice with source=True; error subclasses pass the marker of the segment they store")
     chk.rule("R23b", "serialised offsets and line/column come from the same end of the same slice through one converter call; fix serialisation copies line, column and offset together; extra entries come from the stored segment's marker")
+    chk.rule("R23g", "an optional source position is tested for presence with `is None`, never by truthiness: in the lexer a local that holds None-or-an-offset is not used as a condition or as an `or` / `and` operand (offset 0 is a position)")
+    _r23g(chk, repo)
     chk.rule("R23f", "in every record a CLI / API builder writes, a field named *line* is fed from a `*line_no` field (or a line variable) and a field named *column* / *pos* from a `*line_pos` field: fallbacks included")
     _r23f(chk, repo)
     chk.rule("R23e", "a record built per violation does not inherit position fields from the previous one: in the output builders no mapping created outside a loop has keys stored under a condition inside the loop while the whole mapping is copied / embedded inside that loop, unless it is emptied every iteration")
@@ -872,6 +919,12 @@ LEXER = "src/sqlfluff/core/parser/lexer.py"
 LFILE = "src/sqlfluff/core/linter/linted_file.py"
 
 VARIANTS = [
+    Variant(
+        "stashed-start-kept-by-truthiness", "src/sqlfluff/core/parser/lexer.py",
+        "                        if stashed_source_idx is None:\n                            stashed_source_idx = tfs.source_slice.start\n",
+        "                        if not stashed_source_idx:\n                            stashed_source_idx = tfs.source_slice.start\n",
+        "R23g", "_iter_segments", "seeded C23-7 (same effect): a first token that starts at offset 0 is re-anchored at the tag",
+    ),
     Variant(
         "annotation-end-column-falls-back-to-the-line", "src/sqlfluff/cli/commands.py",
         '                            "end_line_pos", violation["start_line_pos"]\n',
